@@ -693,7 +693,7 @@ func (fr *Frame) appendBuiltin(x *ssa.Call, s, t *Val, tT types.Type) *Val {
 	newLen := Add(s.Len, n)
 	fits := Le(newLen, s.Cap)
 	fitsReal := fits
-	uniq1 := s.Unique && singleUse(x.Call.Args[0])
+	uniq1 := s.Unique && (singleUse(x.Call.Args[0]) || deadAfter(x.Call.Args[0], x))
 	if uniq1 {
 		// s is exclusively owned and dead after this call: growing in place and
 		// reallocating are indistinguishable, so one case suffices
@@ -745,7 +745,9 @@ func (fr *Frame) appendBuiltin(x *ssa.Call, s, t *Val, tT types.Type) *Val {
 		if fits != True {
 			// reallocation: a fresh array holding old contents then the new elements
 			var nrow *Term
-			if (c1 && c2) || fr.u.unrollAll > 0 {
+			_, l1 := iteLitMax(oldCells)
+			_, l2 := iteLitMax(cells)
+			if (c1 && c2) || fr.u.unrollAll > 0 || (l1 && l2) {
 				nrow = fr.copyRange(zero, IntLit(0), oldRow, s.Off, oldCells)
 				nrow = fr.copyRange(nrow, oldCells, srow, t.Off, cells)
 			} else {
@@ -1106,4 +1108,70 @@ func contractResultUnique(c *Contract) bool {
 		}
 	}
 	return false
+}
+
+// deadAfter: no use of v other than `at` can execute after `at` without v being
+// redefined first (v's defining block — for a φ, the loop head — is on every such path).
+func deadAfter(v ssa.Value, at ssa.Instruction) bool {
+	rs := v.Referrers()
+	if rs == nil {
+		return false
+	}
+	var defBlk *ssa.BasicBlock
+	if in, ok := v.(ssa.Instruction); ok {
+		defBlk = in.Block()
+	} else {
+		return false
+	}
+	ab := at.Block()
+	// blocks reachable from `at` without passing through defBlk
+	reach := map[*ssa.BasicBlock]bool{}
+	var stack []*ssa.BasicBlock
+	for _, s := range ab.Succs {
+		if s != defBlk {
+			stack = append(stack, s)
+		}
+	}
+	for len(stack) > 0 {
+		b := stack[len(stack)-1]
+		stack = stack[:len(stack)-1]
+		if reach[b] {
+			continue
+		}
+		reach[b] = true
+		for _, s := range b.Succs {
+			if s != defBlk && !reach[s] {
+				stack = append(stack, s)
+			}
+		}
+	}
+	for _, r := range *rs {
+		if r == at {
+			continue
+		}
+		if _, ok := r.(*ssa.DebugRef); ok {
+			continue
+		}
+		rb := r.Block()
+		if reach[rb] {
+			return false
+		}
+		if rb == ab {
+			// same block: must come before `at`
+			after := false
+			for _, in := range ab.Instrs {
+				if in == at {
+					after = true
+					continue
+				}
+				if in == r && after {
+					return false
+				}
+			}
+		}
+		if rb == defBlk && defBlk == ab {
+			continue
+		}
+	}
+	return true
 }
